@@ -229,6 +229,16 @@ pub struct KReadC;
 pub struct KWriteC;
 pub struct KReadAWriteC;
 pub struct KOptReadA;
+pub struct KDerOptReadAWriteC;
+/// derived bundle used as a controller's declared data
+#[derive(shred::SystemData)]
+pub struct CtrlDer<'a> {
+    pub a: Option<Read<'a, Cell0>>,
+    pub c: Write<'a, Cell1>,
+}
+impl CtrlKind for KDerOptReadAWriteC {
+    type Data<'c> = CtrlDer<'c>;
+}
 impl CtrlKind for KUnit {
     type Data<'c> = ();
 }
@@ -349,6 +359,7 @@ pub fn register_into(b: &mut Builder, ops: &[Op], next_id: &mut usize, ctx: &Arc
                     CtrlData::WriteC => add_batch_k::<KWriteC>(b, bs, id, inner, ctx),
                     CtrlData::ReadAWriteC => add_batch_k::<KReadAWriteC>(b, bs, id, inner, ctx),
                     CtrlData::OptReadA => add_batch_k::<KOptReadA>(b, bs, id, inner, ctx),
+                    CtrlData::DerOptReadAWriteC => add_batch_k::<KDerOptReadAWriteC>(b, bs, id, inner, ctx),
                 }
             }
         }
